@@ -37,7 +37,7 @@ def tok(op):
         return "%s:%d" % (k, op[1])
     if k == "s":
         return "s:%d:%d" % (op[1], op[2])
-    return k
+    return k          # l, i, k (= Close)
 
 
 def case_line(c):
@@ -149,7 +149,36 @@ def gen_seq(rng, length, malformed):
             ops.append(("n", pick_x(rng, keys, deleted, hi)))
         else:
             ops.append(("l",))
+    if valid and rng.random() < 0.2:
+        # Close at the end: every later GetNext answers empty, whatever successor exists
+        ops.append(("k",))
+        for _ in range(rng.randint(1, 3)):
+            ops.append(("n", pick_x(rng, keys, deleted, hi)))
+        if rng.random() < 0.3:
+            ops.append(("k",))
+            ops.append(("n", pick_x(rng, keys, deleted, hi)))
     return {"kind": "out", "ops": ops, "valid": valid, "note": "malformed" if malformed else "seq"}
+
+
+def gen_bigcache(rng):
+    """more than 1000 distinct batches are read, so that getUnlocked trims its cache (random
+    eviction down to 500 entries) several times; afterwards every id is looked up again.  Results
+    do not depend on what the cache holds, so the model (which never evicts) must agree."""
+    n = rng.randint(1080, 1250)
+    ids, i = [], 0
+    for _ in range(n):
+        i += rng.choice([1, 1, 1, 2])
+        ids.append(i)
+    ops = [("a", k, [(1, bytes([65 + k % 26, 48 + k % 10]), (1 + k % 5,))]) for k in ids]
+    ops += [("g", k) for k in ids]                       # fills the cache past 1000 entries
+    order = list(ids)
+    rng.shuffle(order)
+    for k in order[:700]:
+        ops.append(("n", k - 1) if rng.random() < 0.5 else ("n", k))
+    ops += [("g", k) for k in ids]                       # every id again: a batch filed under a wrong key shows
+    for k in ids[:200]:
+        ops.append(("n", k))
+    return {"kind": "out", "ops": ops, "valid": True, "note": "bigcache"}
 
 
 def gen_conc(rng, length):
@@ -192,6 +221,21 @@ def gen_conc(rng, length):
             ops.append(("g", pick_x(rng, keys, deleted, hi)))
         elif readers:
             ops.append(("j", rng.choice(readers)))
+    if rng.random() < 0.35:
+        # Close while readers are parked; readers started afterwards; nobody may stay blocked
+        ops.append(("k",))
+        for _ in range(rng.randint(0, 3)):
+            k = rng.random()
+            if k < 0.4 and nreaders < 4:
+                nreaders += 1
+                ops.append(("s", nreaders, pick_x(rng, keys, deleted, hi)))
+                readers.append(nreaders)
+            elif k < 0.6 and readers:
+                ops.append(("c", rng.choice(readers)))
+            elif k < 0.8:
+                ops.append(("i",))
+            else:
+                ops.append(("k",))
     for t in readers:
         ops.append(("j", t))
     return {"kind": "outc", "ops": ops, "valid": True, "note": "conc"}
@@ -206,9 +250,11 @@ class Ref:
         self.m = {0: [(0, b"", ())]}
         self.readers = {}          # t -> dict(x, st, result, cancelled)
         self.order = []
+        self.closed = False        # Close was called: every GetNext answers empty at once
 
     def copy(self):
         r = Ref()
+        r.closed = self.closed
         r.m = dict(self.m)
         r.readers = {t: dict(v) for t, v in self.readers.items()}
         r.order = list(self.order)
@@ -227,7 +273,9 @@ class Ref:
             return False
         r = self.readers[t]
         s = self.succ(r["x"])
-        if s is not None:
+        if self.closed:
+            r["st"], r["result"] = "done", "empty"
+        elif s is not None:
             r["st"], r["result"] = "done", show_batch(s, self.m[s])
         elif r["st"] == "start":
             r["st"] = "loop"
@@ -256,10 +304,12 @@ class Ref:
             self.m.pop(op[1], None); return "d=ok"
         if k == "i":
             self.broadcast(); return "i=ok"
+        if k == "k":
+            self.closed = True; self.broadcast(); return "k=ok"
         if k == "g":
             return "g=" + (show_batch(op[1], self.m[op[1]]) if op[1] in self.m else "none")
         if k == "n":
-            s = self.succ(op[1])
+            s = None if self.closed else self.succ(op[1])
             return "n=" + (show_batch(s, self.m[s]) if s is not None else "empty")
         if k == "s":
             if op[1] in self.readers:
@@ -311,6 +361,8 @@ def monitor(c, gline):
             return ("get-not-what-was-added", "Get(%d) answered %s, the stream holds %s" % (op[1], got, want))
         elif k == "n" and got != want:
             sig = "getnext-returned-not-newer" if _id_of(got) is not None and _id_of(got) <= op[1] else "getnext-wrong-successor"
+            if ref.closed:
+                sig = "getnext-not-empty-on-closed-stream"
             return (sig, "GetNext(%d) with a cancelled context answered %s, expected %s" % (op[1], got, want))
         elif k == "r" and got != want and sched_dev is None:
             r = ref.readers.get(op[1], {})
@@ -321,7 +373,11 @@ def monitor(c, gline):
         elif k == "j" and got != want:
             r = ref.readers[op[1]]
             gi = _id_of(got)
-            if got.endswith("=blocked"):
+            if got.endswith("=blocked") and ref.closed:
+                sig = "getnext-blocked-on-closed-stream"
+            elif ref.closed and r["result"] == "empty":
+                sig = "getnext-not-empty-on-closed-stream"
+            elif got.endswith("=blocked"):
                 sig = "getnext-blocked-although-successor-exists" if r["result"] != "empty" else "getnext-blocked-after-cancel-and-wakeup"
             elif gi is not None and gi <= r["x"]:
                 sig = "getnext-returned-not-newer"
@@ -330,7 +386,7 @@ def monitor(c, gline):
             else:
                 sig = "getnext-wrong-successor"
             return (sig, "reader %d (GetNext(%d)) is %s, the property demands %s" % (op[1], r["x"], got, want))
-        elif k in ("a", "d", "i", "s", "c", "e") and got != want:
+        elif k in ("a", "d", "i", "s", "c", "e", "k") and got != want:
             return ("op-unexpected-result", "%s answered %s, expected %s" % (tok(op), got, want))
         if c["kind"] == "outc":
             ref.settle()
@@ -374,7 +430,12 @@ def disciplined(c):
     """the schedule discipline of the property: Add ids above everything stored (and non-empty),
     Delete never removes the last remaining batch"""
     keys = {0}
+    closed = False
     for op in c["ops"]:
+        if op[0] == "k":
+            closed = True
+        elif closed and op[0] in ("a", "d", "g", "e", "l"):
+            return False          # the LevelDB handle is closed: only GetNext/Interrupt/Close remain
         if op[0] == "a":
             if not op[2] or op[1] <= max(keys) or op[1] >= MAXU:
                 return False
@@ -401,6 +462,20 @@ def shrink(c, failing, max_rounds=40):
         return g or []
 
     cur = c
+    if len(cur["ops"]) > 300:
+        # a long program (cache-trimming scenarios): only cut the tail, by bisection
+        lo, hi = 1, len(cur["ops"])
+        for _ in range(14):
+            if hi - lo < 2:
+                break
+            mid = (lo + hi) // 2
+            x = dict(cur, ops=cur["ops"][:mid])
+            g = run([x])
+            if g and failing(x, g[0]):
+                hi = mid
+            else:
+                lo = mid
+        return dict(cur, ops=cur["ops"][:hi])
     pre = [dict(cur, ops=cur["ops"][:n]) for n in range(1, len(cur["ops"]))]
     for x, g in zip(pre, run(pre)):
         if failing(x, g):
@@ -436,7 +511,7 @@ def load_corpus():
     return cases
 
 
-LIFECYCLE_METHODS = {"Close"}   # called by reset() under the lock and at shutdown; not a concurrent entry point
+LIFECYCLE_METHODS = set()       # since d929c6d Close takes messagesMu itself (closeLocked is the unexported body)
 
 
 def lock_scan(src):
@@ -449,7 +524,7 @@ def lock_scan(src):
         recv, name, body = m.group(1), m.group(2), m.group(0)
         if name in LIFECYCLE_METHODS:
             continue
-        crit = re.compile(r"\b%s\.(db|batch|lastseen|messagesCache)\b|\b%s\.\w*Unlocked\(" % (recv, recv))
+        crit = re.compile(r"\b%s\.(db|batch|lastseen|messagesCache|closed)\b|\b%s\.\w*Unlocked\(" % (recv, recv))
         lines = [l for l in body.split("\n")]
         held = False
         for i, l in enumerate(lines):
@@ -480,6 +555,8 @@ def source_facts():
         "interrupt_broadcasts": bool(re.search(r"func \(os \*OutputStream\) InterruptGetNext\(\) \{[^}]*newMessage\.Broadcast\(\)", src, re.S)),
         "delete_does_not_broadcast": not re.search(r"func \(os \*OutputStream\) Delete\((?:(?!\nfunc ).)*Broadcast", src, re.S),
         "exported_methods_hold_messagesMu": not lock_scan(src),
+        "getnext_tests_closed_in_both_sections": len(re.findall(r"if os\.closed \{", body)) >= 2,
+        "close_sets_closed_and_broadcasts": bool(re.search(r"func \(\w+ \*OutputStream\) Close\(\) error \{[^}]*\.closed = true[^}]*newMessage\.Broadcast\(\)", src, re.S)),
         "unlocked_accesses": lock_scan(src),
         "wait_loop_repeats_lookup": bool(re.search(r"for \{\s*(?://[^\n]*\n\s*)*next, ok := os\.nextUnlocked\(", body)),
     }
@@ -593,6 +670,8 @@ def sched_programs(rng, n_random, big):
                 conc.append(("c", rng.randint(1, nread)))
             else:
                 conc.append(("i",))
+        if rng.random() < 0.3:
+            conc.append(("k",))
         progs.append(("random", prefix, conc))
     return progs
 
@@ -723,7 +802,7 @@ def run(ck, replay):
         "Go driver harness/go/outputstream/zz_verif_out_test.go (parks detection through sync.Cond's notifyList counters read by reflection)",
         "schedsync shim (harness/go/outputstream/schedsync): drop-in RWMutex/Cond that hands the lock-protected sections of a copy of outputstream.go (import redirected by sed, regenerated every run) to an explicit schedule",
         "python reference (sorted dict) used by the monitor; regex scan of outputstream.go for the lock/wait/broadcast shape",
-        "modelled, not verified: goleveldb as an ordered map (Get/Put/Delete/Write batch/iterators), sync.RWMutex and sync.Cond semantics (each locked section atomic, Broadcast wakes every registered waiter), context cancellation; ids stay below 2^63; fewer than 1000 cached batches (the random cache eviction is an environment step of the proofs, not exercised by the harness)",
+        "modelled, not verified: goleveldb as an ordered map (Get/Put/Delete/Write batch/iterators), sync.RWMutex and sync.Cond semantics (each locked section atomic, Broadcast wakes every registered waiter), context cancellation; ids stay below 2^63; the random cache eviction is an environment step of the proofs - the harness triggers it with programs that read more than 1000 batches and checks that no result depends on it",
         "NOT modelled: Go scheduler fairness - liveness is proved as safety (no lost wake-up, a scheduled reader with a successor returns)"]
     ck.assumptions += [
         "Add is called with strictly increasing ids below 2^64-1 and non-empty batches whose messages all carry that id (what FSM.Apply does)",
@@ -733,7 +812,8 @@ def run(ck, replay):
     facts = source_facts()
     ck.notes["source_facts"] = facts
     for k in ("getnext_found", "getnext_rlock_then_lock", "getnext_waits_on_cond", "add_broadcasts",
-              "interrupt_broadcasts", "delete_does_not_broadcast", "exported_methods_hold_messagesMu"):
+              "interrupt_broadcasts", "delete_does_not_broadcast", "exported_methods_hold_messagesMu",
+              "getnext_tests_closed_in_both_sections", "close_sets_closed_and_broadcasts"):
         ck.add_obligation(facts.get(k, False), "outputstream.go shape: " + k)
 
     stress_cases = []
@@ -751,6 +831,7 @@ def run(ck, replay):
         cases += [gen_seq(rng, rng.randint(4, 60), False) for _ in range(nseq)]
         cases += [gen_seq(rng, rng.randint(3, 40), True) for _ in range(nmal)]
         cases += [gen_conc(rng, rng.randint(3, 18)) for _ in range(nconc)]
+        cases += [gen_bigcache(rng) for _ in range(2 if ck.tier == "quick" else 12)]
         if ck.tier == "thorough":
             cases += [gen_seq(rng, rng.randint(300, 900), False) for _ in range(40)]
     for c in cases:
@@ -819,8 +900,8 @@ def run(ck, replay):
                       "explicit schedules of the lock-protected sections under the schedsync shim; thousands of rounds of Get(newest) racing Add(next) on the real "
                       "primitives (GOMAXPROCS>=4) each followed by GetNext/Get checks; non-trivial = some Get/GetNext returned a batch; distinct by case text")
     ck.cov["input_distribution"] = {"cases_by_kind": dist, "operations": opdist, "impl_outcomes": outcomes, "corpus_cases": ncorpus}
-    ck.cov["samples"] = [{"case": lines[i], "impl": glines[i], "model": mlines[i]} for i in
-                         ([0, 1] if ncorpus else []) + [ncorpus, len(cases) - 1] if i < len(lines)][:4]
+    ck.cov["samples"] = [{"case": lines[i][:1500], "impl": glines[i][:1500], "model": mlines[i][:1500]} for i in
+                         ([0, 1] if ncorpus else []) + [ncorpus, ncorpus + 1] if i < len(lines)][:4]
 
     reported = set()
     for i, (sig, text) in monfail:
